@@ -62,6 +62,7 @@
 #include <errno.h>
 #include <signal.h>
 #include <pthread.h>
+#include <sched.h>
 #include <time.h>
 #include <syslog.h>
 
@@ -1137,11 +1138,13 @@ tp_shutdown(tp_p tp) {
 	for (size_t i = 0; i < tp->s.threads_max; i ++) {
 		if (0 == tpt_is_running(&tp->threads[i]))
 			continue;
-		/* TP_MSG_F_FAIL_DIRECT: if thread queue is full message can
-		 * not be queued, mark thread directly: it will see new state
-		 * after current queue processing. */
-		tpt_msg_send(&tp->threads[i], NULL, TP_MSG_F_FAIL_DIRECT,
-		    tpt_msg_shutdown_cb, NULL);
+		/* Thread must get this message (it may sleep in wait for
+		 * events): retry while thread queue is full.
+		 * TP_MSG_F_SELF_DIRECT: caller may be this thread. */
+		while (EAGAIN == tpt_msg_send(&tp->threads[i], NULL,
+		    TP_MSG_F_SELF_DIRECT, tpt_msg_shutdown_cb, NULL)) {
+			sched_yield();
+		}
 	}
 }
 
